@@ -1,20 +1,20 @@
 SPECIFICATION Spec
-CONSTANTS MaxLinks = 2
- Shapes = {2,3}
- PPPs = {2,9}
- S0s = {1,2}
+CONSTANTS MaxLinks = 1
+ Shapes = {1,2,3,4}
+ PPPs = {1,2,9}
+ S0s = {1,2,3}
  ETs = {0,1}
- Muxes = {0}
- BIdx = {1,2}
+ Muxes = {0,1}
+ BIdx = {1}
  DiscardVi = "link"
  Streaming = FALSE
  PinSer = FALSE
  PinBos = FALSE
- Spans = {0}
+ Spans = {1,2}
  PLen = 2
- ReadLens = {100}
- MaxCalls = 2
- Ops = {"read","pcm","raw","page"}
+ ReadLens = {1,100}
+ MaxCalls = 3
+ Ops = {"read","raw","pcm","page"}
 INVARIANT NoLoopBoundHit
 INVARIANT OpenOK
 INVARIANT PositionTruth
